@@ -230,6 +230,8 @@ SOLVER_ASSUME = ["numeric 1 um / 1 urad judgements are computed by the harness' 
 
 @check("C01")
 def c01(ctx):
+    # the pipeline of inverse_continuing over abstract candidates: every path keeps the contract
+    tlc(ctx, "SolverImpl", workers=8, xmx="12g")
     ev, viols = solver_trace(ctx, "", 3 if ctx.quick else 10)
     solver_report(ctx, ev, viols, "C01")
     return finish(ctx, rule=SOLVER_RULE, assumptions=SOLVER_ASSUME)
